@@ -75,6 +75,7 @@ type VC struct {
 	tparamsEnv map[string]types.Type
 	callOrd map[ssa.Instruction]int
 	epochs  int
+	provingLemma *Axiom
 	cbCount int
 	curInstr ssa.Instruction
 	probes  []Probe
